@@ -30,7 +30,7 @@ NS = {
     "style": "urn:oasis:names:tc:opendocument:xmlns:style:1.0",
 }
 ALL_FEATURES = ["colruns", "rowruns", "s-single", "s-noc", "paragraphs", "spans", "emptyp", "stored", "utf16",
-                "latin1", "colstyle", "trailing-empty-run", "annotations"]
+                "latin1", "colstyle", "trailing-empty-run", "annotations", "embedded-object"]
 
 
 def _escape(text):
@@ -204,6 +204,14 @@ def archive(content_bytes, features=(), members=None):
          b'opendocument.spreadsheet"/><manifest:file-entry manifest:full-path="content.xml" manifest:media-type='
          b'"text/xml"/></manifest:manifest>'),
     ]
+    if "embedded-object" in features:
+        # an embedded chart: a document of its own inside the archive, stored in front of the spreadsheet's content
+        embedded = ('<?xml version="1.0" encoding="UTF-8"?>\n<office:document-content %s><office:body><office:chart>'
+                    '<table:table table:name="local-table"><table:table-row><table:table-cell office:value-type="string">'
+                    '<text:p>chart</text:p></table:table-cell></table:table-row></table:table></office:chart></office:body>'
+                    '</office:document-content>' % " ".join('xmlns:%s="%s"' % item for item in sorted(NS.items())))
+        files[1:1] = [("Object 1/content.xml", embedded.encode("utf-8")),
+                      ("Object 1/styles.xml", b'<?xml version="1.0" encoding="UTF-8"?><styles/>')]
     overrides = dict(members or {})
     with zipfile.ZipFile(buffer, "w") as zip_file:
         for name, data in files:
